@@ -323,42 +323,31 @@ impl Repr {
             return Exact(0.);
         }
 
-        // to get enough precision, shift such that numerator has
-        // 24 bits more than the denominator
+        // To round only once, the quotient is calculated with more bits than the mantissa
+        // (30 or 31 bits), the remainder is folded into its lowest bit as a sticky bit,
+        // and the (only) rounding is left to f32::encode, which also handles subnormal results.
         let sign = self.numerator.sign();
         let num_bits = self.numerator.bit_len();
         let den_bits = self.denominator.bit_len();
 
-        let shift = num_bits as isize - den_bits as isize - 24; // i.e. exponent
+        let shift = num_bits as isize - den_bits as isize - 30; // i.e. exponent
         let (num, den) = if shift >= 0 {
             (self.numerator.clone(), (&self.denominator) << shift as usize)
         } else {
             ((&self.numerator) << (-shift) as usize, self.denominator.clone())
         };
 
-        // then construct the
         if shift >= 128 {
             // max f32 = 2^128 * (1 - 2^-24)
             Inexact(sign * f32::INFINITY, sign)
-        } else if shift < -149 - 25 {
-            // min f32 = 2^-149, quotient has at most 25 bits
+        } else if shift < -149 - 32 {
+            // min f32 = 2^-149, the quotient has at most 31 bits
             Inexact(sign * 0f32, -sign)
         } else {
             let (man, r) = num.unsigned_abs().div_rem(&den);
             let man: u32 = man.try_into().unwrap();
-
-            // round to nearest, ties to even
-            if r.is_zero() {
-                Exact(man)
-            } else {
-                let half = (r << 1).cmp(&den);
-                if half == Ordering::Greater || (half == Ordering::Equal && man & 1 > 0) {
-                    Inexact(man + 1, sign)
-                } else {
-                    Inexact(man, -sign)
-                }
-            }
-            .and_then(|man| f32::encode(sign * man as i32, shift as i16))
+            let man = man | (!r.is_zero()) as u32; // sticky bit
+            f32::encode(sign * man as i32, shift as i16)
         }
     }
 
@@ -368,42 +357,31 @@ impl Repr {
             return Exact(0.);
         }
 
-        // to get enough precision, shift such that numerator has
-        // 53 bits more than the denominator
+        // To round only once, the quotient is calculated with more bits than the mantissa
+        // (62 or 63 bits), the remainder is folded into its lowest bit as a sticky bit,
+        // and the (only) rounding is left to f64::encode, which also handles subnormal results.
         let sign = self.numerator.sign();
         let num_bits = self.numerator.bit_len();
         let den_bits = self.denominator.bit_len();
 
-        let shift = num_bits as isize - den_bits as isize - 53; // i.e. exponent
+        let shift = num_bits as isize - den_bits as isize - 62; // i.e. exponent
         let (num, den) = if shift >= 0 {
             (self.numerator.clone(), (&self.denominator) << shift as usize)
         } else {
             ((&self.numerator) << (-shift) as usize, self.denominator.clone())
         };
 
-        // then construct the
         if shift >= 1024 {
-            // max f64 = 2^1024 × (1 − 2^−53)
+            // max f64 = 2^1024 * (1 - 2^-53)
             Inexact(sign * f64::INFINITY, sign)
-        } else if shift < -1074 - 53 {
-            // min f64 = 2^-1074, quotient has at most 53 bits
+        } else if shift < -1074 - 64 {
+            // min f64 = 2^-1074, the quotient has at most 63 bits
             Inexact(sign * 0f64, -sign)
         } else {
             let (man, r) = num.unsigned_abs().div_rem(&den);
             let man: u64 = man.try_into().unwrap();
-
-            // round to nearest, ties to even
-            if r.is_zero() {
-                Exact(man)
-            } else {
-                let half = (r << 1).cmp(&den);
-                if half == Ordering::Greater || (half == Ordering::Equal && man & 1 > 0) {
-                    Inexact(man + 1, sign)
-                } else {
-                    Inexact(man, -sign)
-                }
-            }
-            .and_then(|man| f64::encode(sign * man as i64, shift as i16))
+            let man = man | (!r.is_zero()) as u64; // sticky bit
+            f64::encode(sign * man as i64, shift as i16)
         }
     }
 }
